@@ -447,6 +447,17 @@ Fixpoint closb (n : nat) (o : wopts) (e : env) (s : schema) (a : aval) {struct n
     end
   end.
 
+(** ** every by-name reference resolves (what parse_schema guarantees): then validation raises nothing but ValidationError *)
+Fixpoint closed_refs (e : env) (s : schema) : bool :=
+  match s with
+  | SRef n => match lookup e n with Some _ => true | None => false end
+  | SArray s' | SMap s' | SAnnot _ s' => closed_refs e s'
+  | SUnion bs => forallb (closed_refs e) bs
+  | SRecord _ _ fs => forallb (fun fd => closed_refs e (ftype fd)) fs
+  | _ => true
+  end.
+Definition closed_env (e : env) : bool := forallb (fun p => closed_refs e (snd p)) e.
+
 (** ** text glue for the correspondence protocol *)
 Local Open Scope string_scope.
 Definition FUEL2 : nat := 400.
@@ -501,7 +512,8 @@ Definition run_c10 (dt : bool) (e : env) (s : schema) (v : pyval) : string :=
   let o3 := {| strict := false; strict_allow_default := true; disable_tuple := dt |} in
   run_validate2 o1 e s v ++ "|" ++ run_validate2 o2 e s v ++ "|" ++ show_written (elab FUEL2 o1 e s v)
   ++ "|" ++ show_written (elab FUEL2 o2 e s v) ++ "|" ++ show_written (elab FUEL2 o3 e s v)
-  ++ "|" ++ (if wf_py v && pyfloats_ok v && wf_schema s && wf_env e && dflt_floats_ok s && env_floats_ok e then "hyp" else "HYPBAD").
+  ++ "|" ++ (if wf_py v && pyfloats_ok v && wf_schema s && wf_env e && dflt_floats_ok s && env_floats_ok e
+                  && closed_refs e s && closed_env e then "hyp" else "HYPBAD").
 
 (* option records as the harness writes them (same as model/Harness.v; repeated here so that the C09/C10 checks do
    not depend on that file) *)
